@@ -606,12 +606,22 @@ def has_side_effect(node: ast.AST, safe_callable_whitelist: Collection[str] = fr
         return True
 
     if isinstance(node, (ast.ClassDef, ast.FunctionDef, ast.AsyncFunctionDef)):
-        return node.name != "_"
+        if node.name != "_" or node.decorator_list:
+            return True  # Decorators are called with the definition, e.g. @singledispatch.register
+        # Base classes, class bodies, default values and annotations are evaluated when the
+        # definition is executed, even if the name it is bound to is never used.
+        if isinstance(node, ast.ClassDef):
+            evaluated = itertools.chain(
+                node.bases, (keyword.value for keyword in node.keywords), node.body
+            )
+        else:
+            evaluated = [node.args, node.returns]
+        return any(has_side_effect(item, safe_callable_whitelist) for item in evaluated)
 
     if isinstance(node, ast.For):
         return any(
             has_side_effect(item, safe_callable_whitelist)
-            for item in itertools.chain([node.target], [node.iter], node.body)
+            for item in itertools.chain([node.target], [node.iter], node.body, node.orelse)
         )
 
     if isinstance(node, ast.Lambda):
@@ -623,7 +633,13 @@ def has_side_effect(node: ast.AST, safe_callable_whitelist: Collection[str] = fr
         return any(
             has_side_effect(item, safe_callable_whitelist)
             for item in itertools.chain(
-                node.posonlyargs, node.args, node.kwonlyargs, node.kw_defaults, node.defaults
+                node.posonlyargs,
+                node.args,
+                [node.vararg],
+                node.kwonlyargs,
+                node.kw_defaults,
+                [node.kwarg],
+                node.defaults,
         ))
 
     if node is None:
@@ -687,10 +703,19 @@ def has_side_effect(node: ast.AST, safe_callable_whitelist: Collection[str] = fr
 
     if isinstance(node, ast.Slice):
         return any(
-            has_side_effect(child, safe_callable_whitelist) for child in (node.lower, node.upper)
+            has_side_effect(child, safe_callable_whitelist)
+            for child in (node.lower, node.upper, node.step)
         )
 
-    if isinstance(node, (ast.DictComp)) and has_side_effect(node.value, safe_callable_whitelist):
+    if isinstance(node, (ast.DictComp)) and (
+        has_side_effect(node.key, safe_callable_whitelist)
+        or has_side_effect(node.value, safe_callable_whitelist)
+    ):
+        return True
+
+    if isinstance(node, (ast.SetComp, ast.ListComp, ast.GeneratorExp)) and has_side_effect(
+        node.elt, safe_callable_whitelist
+    ):
         return True
 
     if isinstance(node, (ast.SetComp, ast.ListComp, ast.GeneratorExp, ast.DictComp)):
@@ -745,6 +770,8 @@ def has_side_effect(node: ast.AST, safe_callable_whitelist: Collection[str] = fr
             targets = node.targets
         else:
             targets = [node.target]
+        if isinstance(node, ast.AnnAssign) and has_side_effect(node.annotation):
+            return True
         return has_side_effect(node.value) or any(has_side_effect(target) for target in targets)
 
     if isinstance(node, ast.Index):
